@@ -199,6 +199,13 @@ def sequences_on_chunk(lens, strand, frames):
                     return False
                 if twin.num_codons != len(exp_all):
                     return False
+                # predicates asked of the chunk view describe the codons the chunk holds (the translation they are documented in terms of)
+                prot = ref_translate(cstr, 0, False)
+                if chunk.has_in_frame_stop != ("*" in prot[:-1]) or chunk.has_valid_stop != (cstr[-1] in ("TAA", "TAG", "TGA")) or \
+                        chunk.has_canonical_start_codon != (cstr[0] == "ATG"):
+                    return False
+                if [str(c) for c in chunk.scan_codons()] != cstr:
+                    return False
             # spliced sequence of the chunk-built feature = in-window stretch of the whole one
             f_whole = FeatureInterval(starts, ends, strand, guid=45, parent_or_seq_chunk_parent=chrom_parent(GEN))
             f_chunk = FeatureInterval(starts, ends, strand, guid=45, parent_or_seq_chunk_parent=par)
